@@ -261,18 +261,18 @@ func Run(dir string, env []string, timeout time.Duration, stdout io.Writer, name
 // TLC
 
 type TLCRun struct {
-	Cfg       string  `json:"cfg"`
-	Kind      string  `json:"kind"` // design | trace | simulate
-	Distinct  int     `json:"distinct"`
-	Generated int     `json:"generated"`
-	Depth     int     `json:"depth"`
-	Seconds   float64 `json:"seconds"`
-	Exit      int     `json:"exit"`
-	Violated  string  `json:"violated,omitempty"`
-	Output    string  `json:"-"`
-	Dir       string  `json:"-"`
-	TimedOut  bool    `json:"timed_out,omitempty"`
-	PostFail  bool    `json:"postcondition_failed,omitempty"`
+	Cfg       string   `json:"cfg"`
+	Kind      string   `json:"kind"` // design | trace | simulate
+	Distinct  int      `json:"distinct"`
+	Generated int      `json:"generated"`
+	Depth     int      `json:"depth"`
+	Seconds   float64  `json:"seconds"`
+	Exit      int      `json:"exit"`
+	Violated  string   `json:"violated,omitempty"`
+	Output    string   `json:"-"`
+	Dir       string   `json:"-"`
+	TimedOut  bool     `json:"timed_out,omitempty"`
+	PostFail  bool     `json:"postcondition_failed,omitempty"`
 	ZeroCov   []string `json:"zero_coverage,omitempty"`
 }
 
